@@ -106,7 +106,11 @@ package websockets
 //@     assert[C13:only-path-and-query-from-the-client] targetURL.Path == r.URL.Path && targetURL.RawPath == r.URL.RawPath && targetURL.RawQuery == r.URL.RawQuery
 //@     do tgt = ret0
 //@   call (*sync.Map).Store
-//@     assert[C12:only-complete-connections-are-registered] arg0 == &connections && conn != nil && connComplete(conn) && typeis(arg2, "*websockets.Connection") && unboxRef(arg2, "*websockets.Connection") == conn
+//@     assert[C12:only-complete-connections-are-registered] arg0 == &connections && conn != nil && connComplete(conn) && typeis(arg2, "*websockets.Connection") && unboxRef(arg2, "*websockets.Connection") == conn && stores == 0
+//@     assert[C12:registered-under-the-session-id-reported-to-the-client] typeis(arg1, "string") && ifaceStr(arg1) == sessionID
+//@     do stores = stores + 1
+//@   ghost stores int = 0
+//@   ensures[C12:an-opened-session-is-registered] rwStatus[w] == 200 ==> stores == 1
 //@   call NewConnection
 //@     assert[C13:dial-only-the-forced-target] dials == 0 && arg1 == tgt
 //@     assert[C09:handshake-headers-are-the-requests] arg2 == r.Header
@@ -320,6 +324,7 @@ package websockets
 //@   ensures[C14:html-body-is-spliced-prefix-plus-rest] resp != nil && old(resp.Body) != nil && shimHTML(old(resp.Header)) && r0 == nil ==> reads == 1 && typeis(resp.Body, "*shimmedBody") && cast(unboxRef(resp.Body, "*shimmedBody"), "*shimmedBody").reader == mr && mr != nil && cast(unboxRef(resp.Body, "*shimmedBody"), "*shimmedBody").closer == old(resp.Body)
 //@   ensures[C14:only-content-length-dropped] resp != nil && old(resp.Body) != nil ==> resp.Header == old(resp.Header) && forall_str(k, k != "Content-Length" ==> (in(k, resp.Header) <==> old(in(k, resp.Header))) && resp.Header[k] == old(resp.Header[k]))
 //@   ensures[C14:read-error-leaves-body-in-place] r0 != nil ==> resp.Body == old(resp.Body)
+//@   ensures[C14:spliced-body-is-not-announced-with-the-old-length] resp != nil && old(resp.Body) != nil && shimHTML(old(resp.Header)) && r0 == nil ==> !in("Content-Length", resp.Header)
 
 //@ func (*shimmedBody).Read props(C14,C07)
 //@   requires sb != nil && sb.reader != nil
